@@ -246,6 +246,11 @@ func featureFlags(flagOvd bool) map[string]struct{} {
 
 // runParsed executes an already parsed script; never panics.
 func runParsed(ctx context.Context, p numscript.ParseResult, vars map[string]string, store interpreter.Store, flagOvd bool) (out Outcome) {
+	return runParsedFlags(ctx, p, vars, store, featureFlags(flagOvd))
+}
+
+// runParsedFlags: the same with an explicit flag set (nil = the plain Run entry point); never panics.
+func runParsedFlags(ctx context.Context, p numscript.ParseResult, vars map[string]string, store interpreter.Store, flags map[string]struct{}) (out Outcome) {
 	defer func() {
 		if rec := recover(); rec != nil {
 			out = Outcome{St: "panic", Msg: fmt.Sprint(rec)}
@@ -253,8 +258,8 @@ func runParsed(ctx context.Context, p numscript.ParseResult, vars map[string]str
 	}()
 	var res numscript.ExecutionResult
 	var err numscript.InterpreterError
-	if flagOvd {
-		res, err = p.RunWithFeatureFlags(ctx, vars, store, featureFlags(true))
+	if flags != nil {
+		res, err = p.RunWithFeatureFlags(ctx, vars, store, flags)
 	} else {
 		res, err = p.Run(ctx, vars, store)
 	}
